@@ -374,7 +374,7 @@ class Analysis:
             nb = nb if nb.raw.get("inlined") else co
             # closures that hand something to a channel from inside `map_err(|e| ..)` & co: the adaptor is written out as its match
             from .inline import desugar_adaptors
-            cache[co.id] = desugar_adaptors(prog, nb, sends)
+            cache[co.id] = desugar_adaptors(prog, nb, lambda cb: cb is None or not prog.exp_chain(cb.crate, cb.span))
         return cache[co.id]
 
     def info(self, body):
